@@ -39,6 +39,8 @@ BUDGET = {'quick': 6000, 'thorough': 60000}
 K_TOL = 16
 TOLERANCES = {
     'inplace_vs_outofplace': '|r2-r| <= 16*eps(dtype)*max(|r|,|r2|) per leaf '
+                             '(eps of the coarsest leaf in mixed-precision '
+                             'product spaces) '
                              '(FFT-based operators: times sqrt(size)); '
                              'exact equality for copy / index / constant '
                              'operators and for integer / bool ranges; NaN '
@@ -155,6 +157,10 @@ def compare(got, ref, spc, exact, ktol, fft=False):
     la, lb = _leaves(got, spc), _leaves(ref, spc)
     if len(la) != len(lb):
         return 'different number of leaves'
+    # mixed-precision product spaces: scalars shared by all parts (norms,
+    # step sizes) carry the rounding of the coarsest leaf
+    epsmax = max([np.finfo(np.asarray(a).dtype).eps for a in la
+                  if np.asarray(a).dtype.kind in 'fc'] or [0.0])
     for i, (a, b) in enumerate(zip(la, lb)):
         a, b = np.asarray(a), np.asarray(b)
         if a.shape != b.shape:
@@ -185,7 +191,7 @@ def compare(got, ref, spc, exact, ktol, fft=False):
             bad = av != bv
             tol = 0.0
         else:
-            eps = np.finfo(a.dtype).eps
+            eps = max(np.finfo(a.dtype).eps, epsmax)
             scale = max(np.abs(av).max(), np.abs(bv).max())
             tol = ktol * eps * scale * (np.sqrt(a.size) if fft else 1.0) \
                 + 4 * np.finfo(a.dtype).tiny
